@@ -20,6 +20,7 @@ from engine.api import Pack
 from engine import accum
 from engine.csym import as_real, as_int
 from engine.mem import Ptr, StructObj
+from engine.cexec import PathEnd
 
 P = Pack("C02", ["src/gravity.c", "src/boundary.c"], "gravity: pairwise sum")
 PACKS = [P]
@@ -307,7 +308,7 @@ def basic_shape(v):
     v.ground("shape.basic", ok, "expected: zeroing loop; 3 ghost loops around [active i>j nest, test-particle nest]; got %s"
              % [t.shape() for t in top])
     if not ok:
-        raise accum.Unsupported("REB_GRAVITY_BASIC: unexpected loop structure")
+        raise PathEnd("REB_GRAVITY_BASIC: unexpected loop structure (reported by shape.basic)")
     zero, gx = top
     gy = gx.children[0]
     gz = gy.children[0]
@@ -382,10 +383,14 @@ def _(v):
     c.r.gravity_cs = cs.ptr
     v.assume(ncs >= c.N)
     top = accum.loops_under(v.eng, FN, v.eng.enum("REB_GRAVITY_COMPENSATED"))
+    # single loops before the zeroing loop (e.g. inside the reallocation branch, which the precondition excludes) carry no
+    # contract: if a path reaches one the engine reports the task as unsupported
+    while len(top) > 3 and top[0].shape() == ():
+        top = top[1:]
     ok = len(top) == 3 and top[0].shape() == () and top[1].shape() == PAIR and top[2].shape() == PAIR
     v.ground("shape.compensated", ok, "expected: zeroing loop, active nest, test-particle nest; got %s" % [t.shape() for t in top])
     if not ok:
-        raise accum.Unsupported("REB_GRAVITY_COMPENSATED: unexpected loop structure")
+        raise PathEnd("REB_GRAVITY_COMPENSATED: unexpected loop structure (reported by shape.compensated)")
     zero, act, tst = top
     A = accum.Accum(v, FN, [(c.parts, f) for f in AXYZ] + [(cs, f) for f in XYZ])
     cskeys = [A.key(cs, f) for f in XYZ]
@@ -436,7 +441,7 @@ def helio_shape(v, cases, what, first_is_single=True):
     ok = len(top) == 3 and top[0].shape() == () and top[1].shape() == PAIR and top[2].shape() == PAIR
     v.ground("shape." + what, ok, "expected: single loop, active nest, test-particle nest; got %s" % [t.shape() for t in top])
     if not ok:
-        raise accum.Unsupported(what + ": unexpected loop structure")
+        raise PathEnd(what + ": unexpected loop structure (reported by shape.*)")
     return top[0].ordinal, [top[1].ordinal, top[1].children[0].ordinal], [top[2].ordinal, top[2].children[0].ordinal]
 
 
